@@ -56,10 +56,10 @@ CHECKS = {
 }
 
 CHECKS['C03'] = {
-    'verus_units': ['eval', 'select', 'mapping', 'valuetype'],
+    'verus_units': ['eval', 'select', 'mapping', 'valuetype', 'converter'],
     'clause_prefixes': ['c03', 'value.', 'engine.', 'row.', 'select.'],
     'technique': 'contract-based deductive verification (Verus): arms of ExpressionExecutionEngine::evaluate extracted from /repo and proved against a recursive specification sem_eval written from the property text; structural induction through the contract of evaluate',
-    'claim': 'Proof, for all expression trees, rows and values, that the extracted arms of evaluate (literal, column access, comparison, IS, arithmetic, unary, AND/OR, IN/NOT IN, subscript, CASE, aggregate reference) return exactly sem_eval(expression, row) - comparisons by value and false on NULL, NULL-propagating arithmetic with overflow and division by zero as errors, two-valued logic, IN as OR of =, first true CASE branch, 1-based subscripts - or an error when sem_eval has no value. Function calls: the arguments are evaluated left to right and the first one without a value ends the call; make_timestamp (seven INT parts as documented, a part that does not fit its field gives NULL, never a wrapped date), greatest / least (same-type pairs, NULL gives NULL), abs and pow (exact or no value), sqrt, length (characters), upper / lower, EXTRACT year..second, array_length are proved equal to sem_function written from the README; casts (TypeConversion) are proved equal to sem_convert (text is parsed as the target type, an interval counts its seconds, a value of the target type is itself, anything renders as text, every other combination has no value); array_cat / array_append / array_prepend are proved against relational specifications (element order, element type check); for each of these functions a call with the documented number of arguments is proved to reach the arm of its function (rule E3d).',
+    'claim': 'Proof, for all expression trees, rows and values, that the extracted arms of evaluate (literal, column access, comparison, IS, arithmetic, unary, AND/OR, IN/NOT IN, subscript, CASE, aggregate reference) return exactly sem_eval(expression, row) - comparisons by value and false on NULL, NULL-propagating arithmetic with overflow and division by zero as errors, two-valued logic, IN as OR of =, first true CASE branch, 1-based subscripts - or an error when sem_eval has no value. Function calls: the arguments are evaluated left to right and the first one without a value ends the call; make_timestamp (seven INT parts as documented, a part that does not fit its field gives NULL, never a wrapped date), greatest / least (same-type pairs, NULL gives NULL), abs and pow (exact or no value), sqrt, length (characters), upper / lower, EXTRACT year..second, array_length are proved equal to sem_function written from the README; Statement lowering (unit converter): create_select_statement keeps the projections in order, names each output column by its alias, else its column name, else p<i>, and passes FROM / WHERE / LIMIT / DISTINCT through; transform_statement makes a query with GROUP BY or an aggregate an aggregate query. Casts (TypeConversion) are proved equal to sem_convert (text is parsed as the target type, an interval counts its seconds, a value of the target type is itself, anything renders as text, every other combination has no value); array_cat / array_append / array_prepend are proved against relational specifications (element order, element type check); for each of these functions a call with the documented number of arguments is proved to reach the arm of its function (rule E3d).',
     'note': 'Trusted: derived comparison of Value (uninterpreted value_cmp; its laws are C16), IEEE and chrono arithmetic as uninterpreted total functions, ValueType::parse, closure/loop contracts spliced by ordinal (rule E5). Unproved: the FunctionCall arms regexp_matches, array / array_unique, now, EXTRACT(EPOCH), date_trunc (chrono / regex / iterator adapters); lowering of parse trees and result column names are not covered.',
     'level': 'proof',
     'explanation': 'Each match arm of evaluate is emitted as its own function (rule E3) whose body is the arm text from /repo; recursive calls see the full contract of evaluate, so the arms together are a proof by structural induction that evaluate refines sem_eval.',
@@ -68,7 +68,7 @@ CHECKS['C03'] = {
         'f64 arithmetic and chrono DateTime/Duration arithmetic are uninterpreted total functions (chrono range overflow is not modelled)',
         'termination of evaluate (recursion on strict sub-expressions) is not checked: evaluate is external_body for its callers',
     ],
-    'unproved': ['evaluate arms FunctionCall for regexp_matches, array, array_unique, now, EXTRACT(EPOCH), date_trunc', 'parser_tree_converter lowering, projection naming'],
+    'unproved': ['evaluate arms FunctionCall for regexp_matches, array, array_unique, now, EXTRACT(EPOCH), date_trunc', 'parser_tree_converter::transform_expression / transform_aggregate (expression lowering; named by sem_lower)'],
 }
 CHECKS['C09'] = {
     'verus_units': ['eval', 'follow', 'select', 'engine', 'extract', 'parser', 'tokenizer', 'converter', 'valuetype', 'executor', 'aggregate', 'aggdispatch', 'aggresult', 'join', 'joinload', 'mapping'],
@@ -84,7 +84,7 @@ CHECKS['C09'] = {
 }
 
 CHECKS['C08'] = {
-    'verus_units': ['select', 'aggresult'],
+    'verus_units': ['select', 'aggresult', 'converter'],
     'kani': {
         'sets': ['value_order'],
         'quick': ['float_eq_implies_same_hash', 'float_eq_reflexive', 'float_cmp_agrees_with_eq', 'value_laws_float_float', 'value_laws_int_int', 'value_laws_null_null', 'value_laws_bool_bool'],
@@ -102,7 +102,7 @@ CHECKS['C08'] = {
 }
 
 CHECKS['C07'] = {
-    'verus_units': ['engine', 'executor'],
+    'verus_units': ['engine', 'executor', 'converter'],
     'clause_prefixes': ['c07', 'out.'],
     'technique': 'contract-based deductive verification (Verus): ExecutionEngine::update_limit / reached_limit / execute extracted from /repo; prefix lemma over the update_limit contract',
     'claim': 'Proof for all outputs, limits and row counters that update_limit keeps exactly the prefix of rows the LIMIT still allows, counts every kept row (NULL-only rows included), and raises reached_limit exactly when the count reaches n (at once for n = 0 via reached_limit()); that execute applies it to every SELECT line and truncates the final aggregate table to the first n groups; lemma: over any sequence of calls the emitted rows are the first n rows of the unlimited output. The reader loops that must stop consuming input are covered by the executor unit (C12) where claimed.',
@@ -205,7 +205,7 @@ CHECKS['C19'] = {
 }
 
 CHECKS['C04'] = {
-    'verus_units': ['aggregate', 'aggdispatch', 'aggresult'],
+    'verus_units': ['aggregate', 'aggdispatch', 'aggresult', 'converter'],
     'clause_prefixes': ['c04', 'value.modify', 'value.map-numeric', 'value.default'],
     'technique': 'contract-based deductive verification (Verus): GroupAggregator::default / update (all arms) / is_null, ensure_sum_fits and Value::modify_same_type_numeric_nullable / map_numeric extracted from /repo against step functions written from the property text',
     'claim': 'Proof (fold kernel and per-group dispatch) for all states and values that one update step of each running aggregate is exactly the documented step and that update_aggregate folds a row into the cell of ITS group and aggregate index only (get_group: an existing cell is returned as it is, the default is computed only for a missing cell; COUNT / COUNT(DISTINCT) add one exactly for qualifying rows; MIN / MAX by value order; NULL arguments never wipe an accumulated value; ARRAY_AGG appends in arrival order; STRING_AGG joins with the delimiter); execute_update leaves the state untouched for rows that fail WHERE. Step level: SUM / AVG / STDDEV-VARIANCE bookkeeping add the value exactly or report an error (never wrap), the first value only initialises, AVG shows sum/count, PERCENTILE collects every value, BOOL_AND / BOOL_OR combine two-valued, COUNT(DISTINCT) counts a value only at its first occurrence; the unimplemented!() arms of default are unreachable under its precondition. Result path (unit aggresult): extract_result_rows_by_column builds one named column per select-list aggregate with exactly one value per group in key order, each taken from that group (its key component, or its own cell through the select-list expression; COUNT 0 / NULL when no row of the group qualified), and execute_result zips the columns position by position into rows, applies HAVING per group and DISTINCT among the kept rows. Known findings: a group none of whose aggregates got a qualifying row (COUNT(c), STRING_AGG(c) with c NULL throughout) is missing from the result. update_aggregates (unit aggdispatch): the group key of a row is the values of its GROUP BY expressions on that row (map_result_vec is verified: one result per element in order, or an error), a row without a key is an error that aggregates nothing, and every select-list aggregate is dispatched exactly once, in order, under its own index for that key (fold_select_list); execute_update folds exactly the rows that pass WHERE. PERCENTILE (update_value) shows the value at rank min(floor(p*n), n-1) of the sorted values of the group, never one past the end, and the refresh of a shown cell overwrites exactly that cell. HAVING (accept_group) is evaluated on the group\'s own key parts (by GROUP BY position) and its own cells (select-list count + j; COUNT 0 / NULL when missing), and an aggregate inside an expression (evaluate, Aggregate arm) denotes exactly the value bound under its name. NOT decided: the HAVING aggregates inside update_aggregates (closure over &mut self, stubbed), extract_having_aggregates (visitor closure), and that the dispatch match of update_aggregate selects the proved arm.',
